@@ -69,6 +69,15 @@ pub struct SrvCase {
     /// the application binds the listening socket itself and hands its descriptor over
     /// (HttpServer::new_from_fd) instead of a path
     pub from_fd: bool,
+    /// start_server() is called a second time (the second call fails with EEXIST; nothing may change)
+    pub start_twice: bool,
+    /// the application replaces the kill switch: add_kill_switch() with a throw-away eventfd first
+    pub kill_twice: bool,
+    /// with daemon-style numbering: descriptor 0 is occupied during set-up and freed afterwards, so
+    /// the first accepted connection is descriptor 0
+    pub placeholder0: bool,
+    /// start_server() is never called (only meaningful for C18: the kill switch must still work)
+    pub skip_start: bool,
 }
 
 impl SStep {
@@ -146,6 +155,10 @@ impl SrvCase {
             ("fds_from_zero", J::Bool(self.fds_from_zero)),
             ("kill_first", J::Bool(self.kill_first)),
             ("from_fd", J::Bool(self.from_fd)),
+            ("start_twice", J::Bool(self.start_twice)),
+            ("kill_twice", J::Bool(self.kill_twice)),
+            ("placeholder0", J::Bool(self.placeholder0)),
+            ("skip_start", J::Bool(self.skip_start)),
         ])
     }
     pub fn from_json(j: &J) -> Result<SrvCase, String> {
@@ -170,6 +183,10 @@ impl SrvCase {
             fds_from_zero: j.get("fds_from_zero").and_then(|x| x.bool()).unwrap_or(false),
             kill_first: j.get("kill_first").and_then(|x| x.bool()).unwrap_or(false),
             from_fd: j.get("from_fd").and_then(|x| x.bool()).unwrap_or(false),
+            start_twice: j.get("start_twice").and_then(|x| x.bool()).unwrap_or(false),
+            kill_twice: j.get("kill_twice").and_then(|x| x.bool()).unwrap_or(false),
+            placeholder0: j.get("placeholder0").and_then(|x| x.bool()).unwrap_or(false),
+            skip_start: j.get("skip_start").and_then(|x| x.bool()).unwrap_or(false),
         })
     }
 }
@@ -267,6 +284,8 @@ pub struct Flags {
 pub struct ServerSim {
     pub server: Option<HttpServer>,
     pub kill: Option<EventFd>,
+    /// the harness' copy of a kill switch that was replaced (kept open, never signalled)
+    pub kill_extra: Option<EventFd>,
     pub epfd: i32,
     pub case_limit: usize,
     pub clients: BTreeMap<usize, Client>,
@@ -350,6 +369,30 @@ pub fn app_response(version: u8, tag: &str, code: u16, pad: usize) -> (Response,
     r.set_body(Body::new(body.clone()));
     let mut spec = RespSpec::new(version, code);
     spec.set_body(body);
+    // the application also uses the other builder calls (derived from `pad`, so part of the case):
+    // whatever it builds must reach its client byte for byte
+    match pad % 8 {
+        5 => {
+            let sv: String = (0..300).map(|i| (b'A' + (i % 26) as u8) as char).collect();
+            r.set_server(&sv);
+            spec.server = sv;
+        }
+        6 => {
+            for k in 0..(pad % 23) {
+                r.allow_method(crate::obs::method_of((k % 3) as u8));
+                spec.allow.push((k % 3) as u8);
+            }
+            r.set_deprecation();
+            spec.deprecation = true;
+        }
+        7 => {
+            r.set_encoding();
+            spec.accept_encoding = true;
+            r.set_content_type(micro_http::MediaType::PlainText);
+            spec.content_type = 0;
+        }
+        _ => {}
+    }
     (r, serialize_response(&spec))
 }
 
@@ -367,7 +410,8 @@ impl ServerSim {
             first_fd: if case.fds_from_zero { 0 } else { 3 },
         });
         let prop = flags.prop;
-        let built = catch_unwind(AssertUnwindSafe(|| -> Result<(HttpServer, Option<EventFd>), String> {
+        let built = catch_unwind(AssertUnwindSafe(|| -> Result<(HttpServer, Option<EventFd>, Option<EventFd>), String> {
+            let placeholder = if case.fds_from_zero && case.placeholder0 { Some(EventFd::new(libc::EFD_NONBLOCK).map_err(|e| e.to_string())?) } else { None };
             // (server's copy, harness' copy) of the kill switch, possibly created before the server
             let make = || -> Result<(EventFd, EventFd), String> {
                 let srv = EventFd::new(libc::EFD_NONBLOCK).map_err(|e| e.to_string())?;
@@ -392,6 +436,13 @@ impl ServerSim {
                 server.set_payload_max_size(l);
             }
             let mut kill = None;
+            let mut kill_extra = None;
+            if case.kill_switch && case.kill_twice {
+                // a first switch that the application replaces right away (it keeps its own copy)
+                let (srv, mine) = make()?;
+                server.add_kill_switch(srv).map_err(|e| format!("add_kill_switch: {}", e))?;
+                kill_extra = Some(mine);
+            }
             if case.kill_switch && !case.kill_after_start {
                 let (srv, mine) = match early.take() {
                     Some(x) => x,
@@ -400,7 +451,13 @@ impl ServerSim {
                 server.add_kill_switch(srv).map_err(|e| format!("add_kill_switch: {}", e))?;
                 kill = Some(mine);
             }
-            server.start_server().map_err(|e| format!("start_server: {}", e))?;
+            if !case.skip_start {
+                server.start_server().map_err(|e| format!("start_server: {}", e))?;
+                if case.start_twice {
+                    // registering the listener again fails (EEXIST); the server must be unaffected
+                    let _ = server.start_server();
+                }
+            }
             if case.kill_switch && case.kill_after_start {
                 let (srv, mine) = match early.take() {
                     Some(x) => x,
@@ -409,9 +466,10 @@ impl ServerSim {
                 server.add_kill_switch(srv).map_err(|e| format!("add_kill_switch: {}", e))?;
                 kill = Some(mine);
             }
-            Ok((server, kill))
+            drop(placeholder);
+            Ok((server, kill, kill_extra))
         }));
-        let (server, kill) = match built {
+        let (server, kill, kill_extra) = match built {
             Ok(Ok(x)) => x,
             Ok(Err(e)) => return Err(Violation::new(&format!("{}:setup", prop), 0, e)),
             Err(p) => return Err(Violation::new(&format!("{}:panic", prop), 0, format!("server setup panicked: {}", panic_msg(p)))),
@@ -421,6 +479,7 @@ impl ServerSim {
         Ok(ServerSim {
             server: Some(server),
             kill,
+            kill_extra,
             epfd,
             case_limit: case.limit.unwrap_or(51200),
             clients: BTreeMap::new(),
@@ -675,11 +734,11 @@ impl ServerSim {
             },
             SStep::RespondAll { code, pad } => {
                 if self.outstanding.is_empty() {
-                    false
-                } else {
-                    self.respond_batch(*code, *pad, st)?;
-                    true
+                    // an empty batch is a legal call: it must succeed and change nothing
+                    st.probe("empty_batch_enqueue_responses");
                 }
+                self.respond_batch(*code, *pad, st)?;
+                true
             }
             SStep::Flush => {
                 // well-behaved configuration: only when every queued response fits its client's buffer
@@ -1310,6 +1369,33 @@ impl ServerSim {
             return Err(self.v("shutdown-missed", format!("kill switch signalled but requests() returned Ok with {} request(s)", reqs.len())));
         }
         let progress = self.account_log(&log, st)?;
+        // a pending client must not be ignored: when epoll_wait reported the listener and the call
+        // returned normally, an accept must have been made (serve or refuse); otherwise the client
+        // neither gets service nor the 503, and the level-triggered listener makes the caller spin
+        {
+            let mut listener_reported = false;
+            let mut accepted = false;
+            for e in &log {
+                match e {
+                    LogEntry::EpollWait { res: Ok(v) } => {
+                        if v.iter().any(|x| x.0 == simkernel::world::OBJ_LISTENER) {
+                            listener_reported = true;
+                        }
+                    }
+                    LogEntry::Accept { .. } | LogEntry::AcceptBlocked => accepted = true,
+                    _ => {}
+                }
+            }
+            if listener_reported {
+                st.probe("listener_event_delivered");
+                if !accepted {
+                    return Err(self.v(
+                        "pending-client-ignored",
+                        "epoll_wait reported the listening socket and requests() returned normally without accepting: the waiting client gets neither service nor the 503".into(),
+                    ));
+                }
+            }
+        }
         self.sig.u(reqs.len() as u64);
         // 100-continue accounting for every client the server read from
         let ids: Vec<usize> = self.clients.keys().cloned().collect();
@@ -1625,7 +1711,7 @@ impl ServerSim {
                     }
                 }
                 // interim responses: exactly one 100 per qualifying header block the server has read
-                let got100 = cl.resps.iter().filter(|r| r.code == 100).count();
+                let got100 = cl.resps.iter().filter(|r| r.code == 100 && r.body.is_empty()).count();
                 if got100 != cl.exp_100 {
                     return Err(self.v(
                         "wrong-number-of-100s",
@@ -1687,7 +1773,7 @@ impl ServerSim {
                 }
             }
             let others = fds.len() - streams;
-            let expect_others = 2 + if self.kill.is_some() { 2 } else { 0 };
+            let expect_others = 2 + if self.kill.is_some() { 2 } else { 0 } + self.kill_extra.is_some() as usize;
             if others != expect_others {
                 return Err(self.v("descriptor-accounting", format!("{} non-connection descriptors in the server process, expected {}", others, expect_others)));
             }
